@@ -265,7 +265,18 @@ def _sink_return(st: ast.If, r: str):
     return res[0] if res else None
 
 
-def _rewrite_block(body: List[ast.stmt], in_function: bool, stats: Dict[str, int], fn) -> List[ast.stmt]:
+def _own_returns(fn):
+    stack = list(fn.body)
+    while stack:
+        n = stack.pop()
+        if isinstance(n, (ast.FunctionDef, ast.AsyncFunctionDef, ast.ClassDef, ast.Lambda)):
+            continue
+        if isinstance(n, ast.Return):
+            yield n
+        stack.extend(ast.iter_child_nodes(n))
+
+
+def _rewrite_block(body: List[ast.stmt], in_function: bool, stats: Dict[str, int], fn, loop_body: bool = False, fn_body: bool = False) -> List[ast.stmt]:
     out: List[ast.stmt] = []
     i = 0
     body = list(body)
@@ -329,6 +340,20 @@ def _rewrite_block(body: List[ast.stmt], in_function: bool, stats: Dict[str, int
             stats["anyall"] += 1
             i += 2
             continue
+        if in_function and isinstance(st, ast.If) and not st.orelse and len(st.body) == 1 and i + 1 < len(body) and (
+                (isinstance(st.body[0], ast.Continue) and loop_body) or
+                (isinstance(st.body[0], ast.Return) and st.body[0].value is None and fn_body and fn is not None and not getattr(fn, "_returns_value", True))):
+            # guard with a bare exit: `if c: continue ; REST`  ->  `if not c: REST`   (REST runs to the end of the loop body / function)
+            from .canon import positive_test
+            pos = positive_test(st.test)
+            neg = pos if pos is not None else ast.UnaryOp(op=ast.Not(), operand=st.test)
+            new = ast.If(test=neg, body=body[i + 1:], orelse=[])
+            ast.copy_location(new, st)
+            ast.fix_missing_locations(new)
+            del body[i:]
+            body.append(new)
+            stats["guard"] += 1
+            continue
         if in_function and isinstance(st, ast.If) and i + 1 < len(body) and isinstance(body[i + 1], ast.Return) and isinstance(body[i + 1].value, ast.Name) and i + 2 == len(body):
             # single exit: `if a: r = X elif b: r = Y else: r = Z ; return r`  ->  each branch returns
             r = body[i + 1].value.id
@@ -374,8 +399,11 @@ def _walk(node: ast.AST, in_function: bool, stats: Dict[str, int], fn) -> None:
             and isinstance(node.body[0], ast.Expr) and isinstance(node.body[0].value, ast.Constant) and isinstance(node.body[0].value.value, str):
         node.body = node.body[1:]
         stats["docstring"] += 1
+    if isinstance(node, (ast.FunctionDef, ast.AsyncFunctionDef)) and not hasattr(node, "_returns_value"):
+        node._returns_value = any(isinstance(x, ast.Return) and x.value is not None for x in _own_returns(node)) or any(isinstance(x, (ast.Yield, ast.YieldFrom)) for x in ast.walk(node))
     for fld, b in list(_blocks(node)):
-        new = _rewrite_block(b, in_function, stats, fn)
+        new = _rewrite_block(b, in_function, stats, fn, loop_body=(fld == "body" and isinstance(node, (ast.For, ast.AsyncFor, ast.While))),
+                             fn_body=(fld == "body" and isinstance(node, (ast.FunctionDef, ast.AsyncFunctionDef))))
         if fld in ("body", "orelse", "finalbody"):
             setattr(node, fld, new)
         else:
@@ -385,7 +413,7 @@ def _walk(node: ast.AST, in_function: bool, stats: Dict[str, int], fn) -> None:
 
 
 def normalise_tree(tree: ast.Module) -> Dict[str, int]:
-    stats = {"docstring": 0, "logging": 0, "else": 0, "tempreturn": 0, "annotation": 0, "ifexp": 0, "loop2comp": 0, "setupdate": 0, "flip": 0, "anyall": 0, "sink": 0}
+    stats = {"docstring": 0, "logging": 0, "else": 0, "tempreturn": 0, "annotation": 0, "ifexp": 0, "loop2comp": 0, "setupdate": 0, "flip": 0, "anyall": 0, "sink": 0, "guard": 0}
     _walk(tree, False, stats, None)
     for n in ast.walk(tree):
         if isinstance(n, (ast.FunctionDef, ast.AsyncFunctionDef)):
